@@ -102,6 +102,12 @@ def check_C18(ctx):
             'DEFINE foo AS x := 1 END DEFINE\nDEFINE foo AS x := 2 END DEFINE\nDEFINE foo AS x := 3 END DEFINE\nfoo ; foo ; foo']
     for t in ties:
         reqs += ['GEN ' + files_req(b'm', {b'm': t.encode()})] * ctx.n(40, 200)
+    # a macro-heavy but valid source (150 uses of a macro with temporaries: seconds of work in this instrumented build): its
+    # result may not depend on how much processor time the process has used or is using
+    heavy = 'DEFINE IFZ <V> THEN <P> FI AS #0 := $0; #1 := 1; LOOP #0 DO #1 := 0 END; LOOP #1 DO $1 END END DEFINE\n' + \
+        ' ;\n'.join('IFZ x1 THEN x0 := x0 + 1 FI' for _ in range(150)) + '\n'
+    heavy_req = 'GEN ' + files_req(b'm', {b'm': heavy.encode()})
+    reqs += [heavy_req] * 2
     order1 = list(range(len(reqs)))
     order2 = list(order1)
     r.shuffle(order2)
@@ -110,6 +116,11 @@ def check_C18(ctx):
     out2 = vlib.run_batch([ctx.harness], [reqs[i] for i in order2], per_line_timeout=30, workers=1)
     res1 = {i: o for i, o in zip(order1, out1)}
     res2 = {i: o for i, o in zip(order2, out2)}
+    for res in (res1, res2):
+        for i in order1:
+            if reqs[i] == heavy_req and not is_crash(res[i]) and fields(res[i]).get('ok') != '1':
+                ctx.violation('compile-depends-on-cpu-time', 'a valid macro-heavy source (150 macro uses) was not compiled successfully: ' + res[i][:200], {'source': heavy})
+                break
     same = {}
     for i in order1:
         for res in (res1, res2):
@@ -180,6 +191,8 @@ def check_C18(ctx):
         for tkn in ('RUN', 'WITH', 'LOOP', 'END', '<P>', '$1', '#1', '"f"', '99', ':=', '?', 'DEFINE', 'AS', 'PRIO', 'INCLUDE'):
             for tmpl in ('x0 := %s', 'LOOP %s DO x0 := 1 END', 'x0 := RUN f %s 1 END'):
                 sets.append({'mainf': b'm', 'files': {b'm': (tmpl % tkn).encode()}})
+        # a macro-heavy source (60 uses) on all threads at once
+        sets.append({'mainf': b'm', 'files': {b'm': heavy.replace(' ;\n'.join('IFZ x1 THEN x0 := x0 + 1 FI' for _ in range(150)), ' ;\n'.join('IFZ x1 THEN x0 := x0 + 1 FI' for _ in range(60))).encode()}})
         req = 'MT %d %d %d %s' % (8, ctx.n(6, 40), len(sets), ' '.join(files_req(c['mainf'], c['files']) for c in sets))
         o = vlib.run_batch([tsan], [req], per_line_timeout=ctx.n(120, 600))[0]
         ctx.cov['tsan_run'] = o[:200]
